@@ -306,3 +306,45 @@ func (p *c17) directedReferenceNames(chunk int, cs *caseState) {
 		}
 	}
 }
+
+// ---------------------------------------------------------------------------------------------
+// directed: word numbers counted from the end, stop 0
+// ---------------------------------------------------------------------------------------------
+
+func (p *c17) directedNegativeIndexes(cs *caseState) {
+	res := cs.res
+	for ti, text := range []string{"one two three four", longWords} {
+		s := func() *node { return str(text) }
+		m := func(lit string) *node { return neg(num(lit)) }
+		forms := []*node{
+			call("WORD", tT, s(), m("1")),
+			call("WORD", tT, s(), m("2")),
+			call("WORD", tT, s(), m("4")),
+			call("WORD", tT, s(), m("01")),
+			call("WORD", tT, s(), m("1.0")),
+			call("WORD", tT, s(), bin("-", num("0"), num("1"))),
+			call("WORD", tT, s(), neg(paren(num("1")))),
+			call("WORD", tT, s(), m("1"), boolean(true)),
+			call("word", tT, s(), m("3"), boolean(false)),
+			bin("&", call("UPPER", tT, call("WORD", tT, s(), m("1"))), str("!")),
+			call("WORD_SLICE", tT, s(), m("1")),
+			call("WORD_SLICE", tT, s(), m("2")),
+			call("WORD_SLICE", tT, s(), m("2"), num("0")),
+			call("WORD_SLICE", tT, s(), num("2"), m("1")),
+			call("WORD_SLICE", tT, s(), num("1"), m("2")),
+			call("WORD_SLICE", tT, s(), num("2"), m("1"), boolean(true)),
+			call("LEN", tN, call("WORD_SLICE", tT, s(), num("2"), m("1"))),
+			// stop 0 is the end
+			call("WORD_SLICE", tT, s(), num("2"), num("0")),
+			call("WORD_SLICE", tT, s(), num("3"), num("00"), boolean(true)),
+			call("WORD_SLICE", tT, s(), num("1"), bin("-", num("1"), num("1"))),
+		}
+		for fi, e := range forms {
+			ck := newChecker(res, genBindings(directedRand("negidx", ti*64+fi)), nil)
+			o := cs.runTemplate(ck, single(e, fi%2 == 0), "directed")
+			if o.compared > 0 {
+				res.Count("index.from_end_or_zero_stop.compared", 1)
+			}
+		}
+	}
+}
